@@ -417,7 +417,7 @@ func (r *rsRunner) run(sc *rsScenario) {
 		r.emit(ev)
 	}
 	fin := s.finish()
-	if npanic > 0 && sm != nil {
+	if (npanic > 0 || !fin) && sm != nil {
 		// the manager may hold a half-attached session: the probe and later scenarios get a fresh one
 		r.sm = rsNewSm()
 		sm = r.sm
